@@ -154,6 +154,7 @@ def run(F, rep, tier):
     # premise (C09): an input entry is a unary test; `<= c`, `not(<= c)` ... must compare with the operator they are written with
     from props import c09
     c09.unary_dispatch_rule(F, rep)
+    c09.list_polarity_rule(F, rep)
     # ---------------- R03.1
     bld = F.hir.get(DT + "build_decision_table_evaluator")
     if bld is None:
